@@ -191,33 +191,167 @@ theorem Inv_fresh (cfg : Cfg) : Inv { cfg := cfg } where
   oneOutcome := by intro x o o' h; simp at h
   scanOK := PQ_nil
 
-/-- effect of a call that appends no TxBegin; every TxComplete it appends is for a transaction that
-    was pending, with a single outcome, and that transaction is not pending afterwards -/
-theorem Inv_append (c c' : Coord) (es : List Entry) (h : Inv c)
-    (hlog : c'.log = c.log ++ es) (hn : NoBegin es)
+/-! ## `TxWal::append` under the size limit -/
+
+theorem walApp_cases {sz : Entry → Nat} {cfg : Cfg} {log l : List Entry} {e : Entry}
+    (h : walApp sz cfg log e = some l) : l = log ++ [e] ∨ l = [e] := by
+  unfold walApp at h
+  split at h
+  · left; cases h; rfl
+  · split at h
+    · split at h
+      · right; cases h; rfl
+      · cases h
+    · left; cases h; rfl
+
+theorem walApp_noRotate {sz : Entry → Nat} {cfg : Cfg} {log l : List Entry} {e : Entry}
+    (hn : cfg.NoRotate) (h : walApp sz cfg log e = some l) : l = log ++ [e] := by
+  unfold walApp at h
+  split at h
+  · cases h; rfl
+  · rename_i cap hc
+    split at h
+    · split at h
+      · rename_i hr
+        rcases hn with hn | hn
+        · rw [hn] at hc; cases hc
+        · rw [hn] at hr; cases hr
+      · cases h
+    · cases h; rfl
+
+/-- without a size limit an append never fails -/
+theorem walApp_noCap {sz : Entry → Nat} {cfg : Cfg} (log : List Entry) (e : Entry)
+    (h : cfg.walCap = none) : walApp sz cfg log e = some (log ++ [e]) := by
+  unfold walApp; rw [h]
+
+theorem walTry_noCap {sz : Entry → Nat} {cfg : Cfg} (log : List Entry) (e : Entry)
+    (h : cfg.walCap = none) : walTry sz cfg log e = log ++ [e] := by
+  unfold walTry; rw [walApp_noCap log e h]; rfl
+
+theorem walTryAll_noCap {sz : Entry → Nat} {cfg : Cfg} (log es : List Entry)
+    (h : cfg.walCap = none) : walTryAll sz cfg log es = log ++ es := by
+  unfold walTryAll
+  induction es generalizing log with
+  | nil => simp
+  | cons e es ih => simp only [List.foldl_cons, walTry_noCap log e h, ih]; simp
+
+theorem mem_walApp {sz : Entry → Nat} {cfg : Cfg} {log l : List Entry} {e : Entry}
+    (h : walApp sz cfg log e = some l) : (∀ x ∈ l, x ∈ log ∨ x = e) ∧ e ∈ l := by
+  rcases walApp_cases h with rfl | rfl
+  · exact ⟨fun x hx => by simpa using hx, by simp⟩
+  · exact ⟨fun x hx => Or.inr (by simpa using hx), by simp⟩
+
+theorem walTry_cases (sz : Entry → Nat) (cfg : Cfg) (log : List Entry) (e : Entry) :
+    walTry sz cfg log e = log ++ [e] ∨ walTry sz cfg log e = [e] ∨ walTry sz cfg log e = log := by
+  unfold walTry
+  cases h : walApp sz cfg log e with
+  | none => right; right; rfl
+  | some l =>
+    rcases walApp_cases h with rfl | rfl
+    · left; rfl
+    · right; left; rfl
+
+theorem walTry_noRotate (sz : Entry → Nat) {cfg : Cfg} (hn : cfg.NoRotate) (log : List Entry) (e : Entry) :
+    walTry sz cfg log e = log ++ [e] ∨ walTry sz cfg log e = log := by
+  unfold walTry
+  cases h : walApp sz cfg log e with
+  | none => right; rfl
+  | some l => left; rw [walApp_noRotate hn h]; rfl
+
+theorem mem_walTry (sz : Entry → Nat) (cfg : Cfg) (log : List Entry) (e : Entry) :
+    ∀ x ∈ walTry sz cfg log e, x ∈ log ∨ x = e := by
+  intro x hx
+  rcases walTry_cases sz cfg log e with h | h | h <;> rw [h] at hx
+  · simpa using hx
+  · right; simpa using hx
+  · exact Or.inl hx
+
+theorem mem_walTryAll (sz : Entry → Nat) (cfg : Cfg) (log es : List Entry) :
+    ∀ x ∈ walTryAll sz cfg log es, x ∈ log ∨ x ∈ es := by
+  unfold walTryAll
+  induction es generalizing log with
+  | nil => intro x hx; exact Or.inl hx
+  | cons e es ih =>
+    intro x hx
+    simp only [List.foldl_cons] at hx
+    rcases ih _ x hx with h | h
+    · rcases mem_walTry sz cfg log e x h with h | h
+      · exact Or.inl h
+      · right; simp [h]
+    · right; simp [h]
+
+/-- under `NoRotate` the best-effort appends add a sub-list of what was attempted -/
+theorem walTryAll_noRotate (sz : Entry → Nat) {cfg : Cfg} (hn : cfg.NoRotate) (log es : List Entry) :
+    ∃ es', (∀ e ∈ es', e ∈ es) ∧ walTryAll sz cfg log es = log ++ es' := by
+  unfold walTryAll
+  induction es generalizing log with
+  | nil => exact ⟨[], by simp, by simp⟩
+  | cons e es ih =>
+    simp only [List.foldl_cons]
+    rcases walTry_noRotate sz hn log e with h | h <;> rw [h]
+    · obtain ⟨es', h1, h2⟩ := ih (log ++ [e])
+      exact ⟨e :: es', by intro a ha; simp at ha; rcases ha with rfl | ha <;> simp [h1 _, *], by rw [h2]; simp⟩
+    · obtain ⟨es', h1, h2⟩ := ih log
+      exact ⟨es', fun a ha => by simp [h1 a ha], h2⟩
+
+theorem PQ_single (e : Entry) : PQ [e] := by
+  have : PQ ([] ++ [e]) := by
+    apply PQ_snoc [] e PQ_nil
+    intro x p _ hc
+    obtain ⟨o, ho⟩ := hc
+    simp at ho
+  simpa using this
+
+theorem PQ_walApp {sz : Entry → Nat} {cfg : Cfg} {log l : List Entry} {e : Entry} (h : PQ log)
+    (hb : ∀ x p, e = Entry.txBegin x p → ¬ Completed log x) (ha : walApp sz cfg log e = some l) : PQ l := by
+  rcases walApp_cases ha with rfl | rfl
+  · exact PQ_snoc log e h hb
+  · exact PQ_single e
+
+theorem PQ_walTry (sz : Entry → Nat) (cfg : Cfg) (log : List Entry) (e : Entry) (h : PQ log)
+    (hb : ∀ x p, e ≠ Entry.txBegin x p) : PQ (walTry sz cfg log e) := by
+  rcases walTry_cases sz cfg log e with h' | h' | h' <;> rw [h']
+  · exact PQ_snoc log e h (fun x p he => absurd he (hb x p))
+  · exact PQ_single e
+  · exact h
+
+theorem PQ_walTryAll (sz : Entry → Nat) (cfg : Cfg) (log es : List Entry) (h : PQ log)
+    (hn : NoBegin es) : PQ (walTryAll sz cfg log es) := by
+  unfold walTryAll
+  induction es generalizing log with
+  | nil => exact h
+  | cons e es ih =>
+    simp only [List.foldl_cons]
+    apply ih
+    · exact PQ_walTry sz cfg log e h (fun x p => hn e (by simp) x p)
+    · intro e' he'; exact hn e' (by simp [he'])
+
+/-- effect of a call whose new log holds only old records and records of `es` (none of them a
+    TxBegin — that is `hpq`); every TxComplete in `es` is for a transaction that was pending, with
+    a single outcome, and that transaction is not pending afterwards -/
+theorem Inv_of (c c' : Coord) (es : List Entry) (h : Inv c)
+    (hsub : ∀ e ∈ c'.log, e ∈ c.log ∨ e ∈ es) (hpq : PQ c'.log)
     (hk : ∀ x ∈ mKeys c'.pending, x ∈ mKeys c.pending ∧ ∀ o, Entry.txComplete x o ∉ es)
     (hc : ∀ x o, Entry.txComplete x o ∈ es →
             x ∈ mKeys c.pending ∧ ∀ o', Entry.txComplete x o' ∈ es → o' = o) : Inv c' where
   pendingOpen := by
     intro x hx ⟨o, ho⟩
-    rw [hlog, List.mem_append] at ho
-    rcases ho with ho | ho
+    rcases hsub _ ho with ho | ho
     · exact h.pendingOpen x (hk x hx).1 ⟨o, ho⟩
     · exact (hk x hx).2 o ho
   oneOutcome := by
     intro x o o' h1 h2
-    rw [hlog, List.mem_append] at h1 h2
-    rcases h1 with h1 | h1 <;> rcases h2 with h2 | h2
+    rcases hsub _ h1 with h1 | h1 <;> rcases hsub _ h2 with h2 | h2
     · exact h.oneOutcome x o o' h1 h2
     · exact absurd ⟨o, h1⟩ (h.pendingOpen x (hc x o' h2).1)
     · exact absurd ⟨o', h2⟩ (h.pendingOpen x (hc x o h1).1)
     · exact ((hc x o h1).2 o' h2).symm
-  scanOK := by rw [hlog]; exact PQ_append_noBegin _ _ h.scanOK hn
+  scanOK := hpq
 
 /-- effect of a call that changes memory only -/
 theorem Inv_mem (c c' : Coord) (h : Inv c) (hlog : c'.log = c.log)
     (hk : ∀ x ∈ mKeys c'.pending, x ∈ mKeys c.pending) : Inv c' :=
-  Inv_append c c' [] h (by simp [hlog]) (by intro e he; simp at he)
+  Inv_of c c' [] h (by rw [hlog]; intro e he; exact Or.inl he) (by rw [hlog]; exact h.scanOK)
     (fun x hx => ⟨hk x hx, by simp⟩) (by intro x o ho; simp at ho)
 
 theorem keys_insert_existing {α : Type} (id x : Nat) (t t' : α) (m : List (Nat × α))
@@ -230,127 +364,198 @@ theorem keys_insert_existing {α : Type} (id x : Nat) (t t' : α) (m : List (Nat
 theorem Inv_lock (c : Coord) (tx h : Nat) (hi : Inv c) : Inv (lockAcquire c tx h).1 :=
   Inv_mem c _ hi rfl (fun _ hx => hx)
 
-theorem Inv_begin (c : Coord) (id : Nat) (parts : List Nat) (now : Nat) (hi : Inv c)
-    (hfresh : ¬ Completed c.log id) : Inv (begin c id parts now).1 := by
+theorem Inv_begin (sz : Entry → Nat) (c : Coord) (id : Nat) (parts : List Nat) (now : Nat) (hi : Inv c)
+    (hfresh : ¬ Completed c.log id) : Inv (begin sz c id parts now).1 := by
   unfold begin
   split
   · exact hi
-  · exact {
-      pendingOpen := by
-        intro x hx hc
-        simp only [Coord.append] at hx hc
-        rw [completed_snoc] at hc
-        rcases hc with hc | ⟨o, ho⟩
-        · rw [mem_mKeys_mInsert] at hx
-          rcases hx with rfl | ⟨hx, _⟩
-          · exact hfresh hc
-          · exact hi.pendingOpen x hx hc
-        · cases ho
-      oneOutcome := by
-        intro x o o' h1 h2
-        simp only [Coord.append, List.mem_append, List.mem_singleton] at h1 h2
-        rcases h1 with h1 | h1 <;> rcases h2 with h2 | h2
-        · exact hi.oneOutcome x o o' h1 h2
-        · cases h2
-        · cases h1
-        · cases h1
-      scanOK := by
-        simp only [Coord.append]
-        apply PQ_snoc _ _ hi.scanOK
-        intro x p he; cases he; exact hfresh }
+  · split
+    · exact hi
+    · rename_i l ha
+      have hm := mem_walApp ha
+      exact {
+        pendingOpen := by
+          intro x hx hc
+          obtain ⟨o, ho⟩ := hc
+          simp only at hx ho
+          rcases hm.1 _ ho with ho | ho
+          · rw [mem_mKeys_mInsert] at hx
+            rcases hx with rfl | ⟨hx, _⟩
+            · exact hfresh ⟨o, ho⟩
+            · exact hi.pendingOpen x hx ⟨o, ho⟩
+          · cases ho
+        oneOutcome := by
+          intro x o o' h1 h2
+          simp only at h1 h2
+          rcases hm.1 _ h1 with h1 | h1 <;> rcases hm.1 _ h2 with h2 | h2
+          · exact hi.oneOutcome x o o' h1 h2
+          · cases h2
+          · cases h1
+          · cases h1
+        scanOK := by
+          simp only
+          apply PQ_walApp hi.scanOK _ ha
+          intro x p he; cases he; exact hfresh }
 
-theorem Inv_recordVote (c : Coord) (id shard : Nat) (v : Vote) (x : Bool) (hi : Inv c) :
-    Inv (recordVote c id shard v x).1 := by
-  have nb1 : NoBegin [Entry.prepareVote id shard v.kind] := by
-    intro e he; simp at he; subst he; intro _ _ h; cases h
-  have nb2 : NoBegin [Entry.prepareVote id shard v.kind, Entry.phaseChange id .preparing .prepared] := by
-    intro e he; simp at he; rcases he with rfl | rfl <;> (intro _ _ h; cases h)
-  have nc1 : ∀ y o, Entry.txComplete y o ∉ [Entry.prepareVote id shard v.kind] := by
-    intro y o h; simp at h
-  have nc2 : ∀ y o, Entry.txComplete y o ∉
-      [Entry.prepareVote id shard v.kind, Entry.phaseChange id .preparing .prepared] := by
-    intro y o h; simp at h
+theorem noBegin_vote (id shard : Nat) (k : VoteKind) : ∀ x p, Entry.prepareVote id shard k ≠ Entry.txBegin x p := by
+  intro _ _ h; cases h
+
+theorem noBegin_phase (id : Nat) (f t : Phase) : ∀ x p, Entry.phaseChange id f t ≠ Entry.txBegin x p := by
+  intro _ _ h; cases h
+
+theorem noBegin_complete (id : Nat) (o : Outcome) : ∀ x p, Entry.txComplete id o ≠ Entry.txBegin x p := by
+  intro _ _ h; cases h
+
+theorem Inv_recordVote (sz : Entry → Nat) (c : Coord) (id shard : Nat) (v : Vote) (x : Bool) (hi : Inv c) :
+    Inv (recordVote sz c id shard v x).1 := by
   unfold recordVote
-  simp only [Coord.append]
   split
-  · exact Inv_append c _ _ hi rfl nb1 (fun y hy => ⟨hy, nc1 y⟩) (fun y o h => absurd h (nc1 y o))
-  · rename_i tx hl
+  · exact hi
+  · rename_i l ha
+    have hm := (mem_walApp ha).1
+    have hpq : PQ l := PQ_walApp hi.scanOK (fun a p he => absurd he (noBegin_vote _ _ _ a p)) ha
+    -- the state after the vote record is in the log, memory untouched
+    have base : ∀ (p' : List (Nat × Tx)) (pa : List (Nat × (String × List Nat))),
+        (∀ y ∈ mKeys p', y ∈ mKeys c.pending) →
+        Inv { c with log := l, pending := p', pendingAborts := pa } := by
+      intro p' pa hk
+      refine Inv_of c _ [Entry.prepareVote id shard v.kind] hi ?_ hpq (fun y hy => ⟨hk y hy, by simp⟩) (by simp)
+      intro e he
+      rcases hm e he with h | h
+      · exact Or.inl h
+      · right; simp [h]
+    simp only
     split
-    · exact Inv_append c _ _ hi rfl nb1 (fun y hy => ⟨hy, nc1 y⟩) (fun y o h => absurd h (nc1 y o))
-    · split
-      · exact Inv_append c _ _ hi rfl nb1 (fun y hy => ⟨hy, nc1 y⟩) (fun y o h => absurd h (nc1 y o))
+    · exact base c.pending c.pendingAborts (fun _ h => h)
+    · rename_i tx hl
+      split
+      · exact base c.pending c.pendingAborts (fun _ h => h)
       · split
+        · exact base c.pending c.pendingAborts (fun _ h => h)
         · split
           · split
-            · exact Inv_append c _ _ hi rfl nb1
-                (fun y hy => ⟨keys_insert_existing _ _ _ _ _ hl hy, nc1 y⟩) (fun y o h => absurd h (nc1 y o))
-            · exact Inv_append c _ _ hi (by simp) nb2
-                (fun y hy => ⟨keys_insert_existing _ _ _ _ _ hl hy, nc2 y⟩) (fun y o h => absurd h (nc2 y o))
-          · exact Inv_append c _ _ hi rfl nb1
-              (fun y hy => ⟨keys_insert_existing _ _ _ _ _ hl hy, nc1 y⟩) (fun y o h => absurd h (nc1 y o))
-        · exact Inv_append c _ _ hi rfl nb1
-            (fun y hy => ⟨keys_insert_existing _ _ _ _ _ hl hy, nc1 y⟩) (fun y o h => absurd h (nc1 y o))
+            · split
+              · exact base _ _ (fun y hy => keys_insert_existing _ _ _ _ _ hl hy)
+              · split
+                · exact base _ _ (fun y hy => keys_insert_existing _ _ _ _ _ hl hy)
+                · rename_i l2 ha2
+                  have hm2 := (mem_walApp ha2).1
+                  refine Inv_of c _ [Entry.prepareVote id shard v.kind, Entry.phaseChange id .preparing .prepared]
+                    hi ?_ ?_ (fun y hy => ⟨keys_insert_existing _ _ _ _ _ hl hy, by simp⟩) (by simp)
+                  · intro e he
+                    rcases hm2 e he with h | h
+                    · rcases hm e h with h | h
+                      · exact Or.inl h
+                      · right; simp [h]
+                    · right; simp [h]
+                  · exact PQ_walApp hpq (fun a p he => absurd he (noBegin_phase _ _ _ a p)) ha2
+            · exact base _ _ (fun y hy => keys_insert_existing _ _ _ _ _ hl hy)
+          · exact base _ _ (fun y hy => keys_insert_existing _ _ _ _ _ hl hy)
 
+theorem noBegin_releases (id : Nat) (hs : List Nat) : NoBegin (hs.map (fun h => Entry.lockRelease id h)) := by
+  intro e he x p hx
+  simp only [List.mem_map] at he
+  obtain ⟨a, _, rfl⟩ := he
+  cases hx
 
-theorem mem_commit_entries (id : Nat) (hs : List Nat) (e : Entry) :
-    e ∈ ([Entry.phaseChange id .prepared .committing, Entry.txComplete id .committed]
-          ++ hs.map (fun h => Entry.lockRelease id h) ++ [Entry.allLocksReleased id]) →
-    e = Entry.phaseChange id .prepared .committing ∨ e = Entry.txComplete id .committed ∨
-    (∃ h, e = Entry.lockRelease id h) ∨ e = Entry.allLocksReleased id := by
-  simp only [List.mem_append, List.mem_cons, List.mem_map, List.mem_singleton, List.not_mem_nil, or_false]
-  rintro ((( h | h) | ⟨a, _, h⟩) | h)
-  · exact Or.inl h
-  · exact Or.inr (Or.inl h)
-  · exact Or.inr (Or.inr (Or.inl ⟨a, h.symm⟩))
-  · exact Or.inr (Or.inr (Or.inr h))
-
-theorem Inv_commit (c : Coord) (id : Nat) (hi : Inv c) : Inv (commit c id).1 := by
+theorem Inv_commit (sz : Entry → Nat) (c : Coord) (id : Nat) (hi : Inv c) : Inv (commit sz c id).1 := by
   unfold commit
   split
   · exact hi
   · rename_i tx hl
     split
     · exact hi
-    · simp only [Coord.append]
-      refine Inv_append c _ _ hi rfl ?_ ?_ ?_
-      · intro e he x p hx
-        rcases mem_commit_entries _ _ _ he with h | h | ⟨a, h⟩ | h <;> (rw [h] at hx; cases hx)
-      · intro y hy
-        rw [mem_mKeys_mErase] at hy
-        refine ⟨hy.1, ?_⟩
-        intro o ho
-        rcases mem_commit_entries _ _ _ ho with h | h | ⟨a, h⟩ | h <;> cases h
-        exact hy.2 rfl
-      · intro y o ho
-        rcases mem_commit_entries _ _ _ ho with h | h | ⟨a, h⟩ | h <;> cases h
-        refine ⟨mLookup_some_mem_keys _ _ _ hl, ?_⟩
-        intro o' ho'
-        rcases mem_commit_entries _ _ _ ho' with h | h | ⟨a, h⟩ | h <;> cases h
-        rfl
+    · split
+      · exact hi
+      · rename_i l1 ha1
+        have hm1 := (mem_walApp ha1).1
+        have hpq1 : PQ l1 := PQ_walApp hi.scanOK (fun a p he => absurd he (noBegin_phase _ _ _ a p)) ha1
+        split
+        · -- TxComplete could not be written: Committing in memory, PhaseChange in the log
+          refine Inv_of c _ [Entry.phaseChange id .prepared .committing] hi ?_ hpq1
+            (fun y hy => ⟨keys_insert_existing _ _ _ _ _ hl hy, by simp⟩) (by simp)
+          intro e he
+          rcases hm1 e he with h | h
+          · exact Or.inl h
+          · right; simp [h]
+        · rename_i l2 ha2
+          have hm2 := (mem_walApp ha2).1
+          have hpq2 : PQ l2 := PQ_walApp hpq1 (fun a p he => absurd he (noBegin_complete _ _ a p)) ha2
+          refine Inv_of c _ ([Entry.phaseChange id .prepared .committing, Entry.txComplete id .committed]
+              ++ (voteHandles tx.votes).map (fun h => Entry.lockRelease id h) ++ [Entry.allLocksReleased id]) hi ?_ ?_ ?_ ?_
+          · intro e he
+            simp only at he
+            rcases mem_walTry _ _ _ _ e he with h | h
+            · rcases mem_walTryAll _ _ _ _ e h with h | h
+              · rcases hm2 e h with h | h
+                · rcases hm1 e h with h | h
+                  · exact Or.inl h
+                  · right; simp [h]
+                · right; simp [h]
+              · right; simp only [List.mem_append]; left; right; exact h
+            · right; simp [h]
+          · simp only
+            apply PQ_walTry
+            · exact PQ_walTryAll _ _ _ _ hpq2 (noBegin_releases id _)
+            · intro a p he; cases he
+          · intro y hy
+            simp only at hy
+            rw [mem_mKeys_mErase] at hy
+            refine ⟨hy.1, ?_⟩
+            intro o ho
+            simp only [List.mem_append, List.mem_cons, List.mem_map, List.mem_singleton, List.not_mem_nil, or_false] at ho
+            rcases ho with ((ho | ho) | ⟨a, _, ho⟩) | ho <;> cases ho
+            exact hy.2 rfl
+          · intro y o ho
+            simp only [List.mem_append, List.mem_cons, List.mem_map, List.mem_singleton, List.not_mem_nil, or_false] at ho
+            rcases ho with ((ho | ho) | ⟨a, _, ho⟩) | ho <;> cases ho
+            refine ⟨mLookup_some_mem_keys _ _ _ hl, ?_⟩
+            intro o' ho'
+            simp only [List.mem_append, List.mem_cons, List.mem_map, List.mem_singleton, List.not_mem_nil, or_false] at ho'
+            rcases ho' with ((ho' | ho') | ⟨a, _, ho'⟩) | ho' <;> cases ho'
+            rfl
 
-theorem Inv_abort (c : Coord) (id : Nat) (hi : Inv c) : Inv (abort c id).1 := by
+theorem Inv_abort (sz : Entry → Nat) (c : Coord) (id : Nat) (hi : Inv c) : Inv (abort sz c id).1 := by
   unfold abort
   split
   · exact hi
   · rename_i tx hl
-    simp only [Coord.append]
-    refine Inv_append c _ _ hi rfl ?_ ?_ ?_
-    · intro e he x p hx
-      simp at he
-      rcases he with h | h <;> (rw [h] at hx; cases hx)
-    · intro y hy
-      rw [mem_mKeys_mErase] at hy
-      refine ⟨hy.1, ?_⟩
-      intro o ho
-      simp at ho
-      exact hy.2 ho.1
-    · intro y o ho
-      simp at ho
-      obtain ⟨rfl, rfl⟩ := ho
-      refine ⟨mLookup_some_mem_keys _ _ _ hl, ?_⟩
-      intro o' ho'
-      simp at ho'
-      exact ho'
+    split
+    · exact hi
+    · rename_i l1 ha1
+      have hm1 := (mem_walApp ha1).1
+      have hpq1 : PQ l1 := PQ_walApp hi.scanOK (fun a p he => absurd he (noBegin_phase _ _ _ a p)) ha1
+      split
+      · refine Inv_of c _ [Entry.phaseChange id tx.phase .aborting] hi ?_ hpq1
+          (fun y hy => ⟨keys_insert_existing _ _ _ _ _ hl hy, by simp⟩) (by simp)
+        intro e he
+        rcases hm1 e he with h | h
+        · exact Or.inl h
+        · right; simp [h]
+      · rename_i l2 ha2
+        have hm2 := (mem_walApp ha2).1
+        refine Inv_of c _ [Entry.phaseChange id tx.phase .aborting, Entry.txComplete id .aborted] hi ?_ ?_ ?_ ?_
+        · intro e he
+          rcases hm2 e he with h | h
+          · rcases hm1 e h with h | h
+            · exact Or.inl h
+            · right; simp [h]
+          · right; simp [h]
+        · exact PQ_walApp hpq1 (fun a p he => absurd he (noBegin_complete _ _ a p)) ha2
+        · intro y hy
+          simp only at hy
+          rw [mem_mKeys_mErase] at hy
+          refine ⟨hy.1, ?_⟩
+          intro o ho
+          simp at ho
+          exact hy.2 ho.1
+        · intro y o ho
+          simp at ho
+          obtain ⟨rfl, rfl⟩ := ho
+          refine ⟨mLookup_some_mem_keys _ _ _ hl, ?_⟩
+          intro o' ho'
+          simp at ho'
+          exact ho'
 
 theorem Inv_completeCommit (c : Coord) (id : Nat) (hi : Inv c) : Inv (completeCommit c id).1 := by
   unfold completeCommit
@@ -368,6 +573,14 @@ theorem Inv_completeAbort (c : Coord) (id : Nat) (hi : Inv c) : Inv (completeAbo
     · exact hi
     · exact Inv_mem c _ hi rfl (fun y hy => ((mem_mKeys_mErase _ _ _).mp hy).1)
 
+theorem Inv_forceResolve (c : Coord) (id : Nat) (b : Bool) (hi : Inv c) : Inv (forceResolve c id b).1 := by
+  unfold forceResolve
+  split
+  · exact hi
+  · split
+    · exact hi
+    · exact Inv_mem c _ hi rfl (fun y hy => ((mem_mKeys_mErase _ _ _).mp hy).1)
+
 theorem Inv_cleanup (c : Coord) (now : Nat) (hi : Inv c) : Inv (cleanupTimeouts c now).1 := by
   unfold cleanupTimeouts
   refine Inv_mem c _ hi rfl ?_
@@ -376,11 +589,21 @@ theorem Inv_cleanup (c : Coord) (now : Nat) (hi : Inv c) : Inv (cleanupTimeouts 
   obtain ⟨p, ⟨hp, _⟩, rfl⟩ := hy
   exact ⟨p, hp, rfl⟩
 
-theorem Inv_flush (c : Coord) (hi : Inv c) : Inv (flushAborts c).1 := by
+theorem Inv_recoverMem (c : Coord) (now : Nat) (hi : Inv c) : Inv (recoverMem c now).1 := by
+  unfold recoverMem
+  refine Inv_mem c _ hi rfl ?_
+  intro y hy
+  simp only [mKeys, List.mem_map, List.mem_filter] at hy ⊢
+  obtain ⟨q, ⟨p, ⟨hp, _⟩, rfl⟩, rfl⟩ := hy
+  exact ⟨p, hp, rfl⟩
+
+theorem Inv_flush (sz : Entry → Nat) (c : Coord) (hi : Inv c) : Inv (flushAborts sz c).1 := by
   unfold flushAborts
-  simp only [Coord.append]
-  refine Inv_append c _ _ hi rfl ?_ (fun y hy => ⟨hy, ?_⟩) ?_
-  · intro e he x p hx
+  refine Inv_of c _ (c.pendingAborts.map (fun p => Entry.abortIntent p.1 p.2.1 p.2.2)) hi ?_ ?_
+    (fun y hy => ⟨hy, ?_⟩) ?_
+  · intro e he; exact mem_walTryAll _ _ _ _ e he
+  · apply PQ_walTryAll _ _ _ _ hi.scanOK
+    intro e he x p hx
     simp only [List.mem_map] at he
     obtain ⟨q, _, rfl⟩ := he
     cases hx
@@ -513,7 +736,7 @@ theorem restartBytes_take (crc : List Nat → Nat) (ser : Entry → List Nat) (d
 def StepOK (crc : List Nat → Nat) (ser : Entry → List Nat) (de : List Nat → Option Entry)
     (c : Coord) : Step → Prop
   | .begin id _ _ => ¬ Completed c.log id ∧ ¬ Begun c.log id
-  | .crash _ _ => CodecOK crc ser de c.log
+  | .crash _ _ _ => CodecOK crc ser de c.log
   | _ => True
 
 def Valid (crc : List Nat → Nat) (ser : Entry → List Nat) (de : List Nat → Option Entry) :
@@ -522,28 +745,31 @@ def Valid (crc : List Nat → Nat) (ser : Entry → List Nat) (de : List Nat →
   | c, s :: ss => StepOK crc ser de c s ∧ Valid crc ser de (step crc ser de c s).1 ss
 
 theorem step_crash_eq (crc : List Nat → Nat) (ser : Entry → List Nat) (de : List Nat → Option Entry)
-    (c : Coord) (n now : Nat) (h : CodecOK crc ser de c.log) :
-    step crc ser de c (.crash n now)
-      = (restartLog c.cfg (c.log.take (wholeWithin crc (c.log.map ser) n)) now, Res.ok) := by
-  simp only [step, restartBytes_take crc ser de c.cfg c.log n now h]
+    (c : Coord) (n now : Nat) (cfg : Cfg) (h : CodecOK crc ser de c.log) :
+    step crc ser de c (.crash n now cfg)
+      = (restartLog cfg (c.log.take (wholeWithin crc (c.log.map ser) n)) now, Res.ok) := by
+  simp only [step, restartBytes_take crc ser de cfg c.log n now h]
 
 theorem Inv_step (crc : List Nat → Nat) (ser : Entry → List Nat) (de : List Nat → Option Entry)
     (c : Coord) (s : Step) (hi : Inv c) (hs : StepOK crc ser de c s) :
     Inv (step crc ser de c s).1 := by
   cases s with
   | lock tx h => exact Inv_lock c tx h hi
-  | «begin» id parts now => exact Inv_begin c id parts now hi hs.1
-  | vote id shard v x => exact Inv_recordVote c id shard v x hi
-  | commit id => exact Inv_commit c id hi
-  | abort id => exact Inv_abort c id hi
+  | «begin» id parts now => exact Inv_begin _ c id parts now hi hs.1
+  | vote id shard v x => exact Inv_recordVote _ c id shard v x hi
+  | commit id => exact Inv_commit _ c id hi
+  | abort id => exact Inv_abort _ c id hi
   | completeCommit id => exact Inv_completeCommit c id hi
   | completeAbort id => exact Inv_completeAbort c id hi
   | cleanup now => exact Inv_cleanup c now hi
-  | flushAborts => exact Inv_flush c hi
+  | flushAborts => exact Inv_flush _ c hi
   | recover now => exact Inv_recover c now hi
-  | crash n now =>
-    rw [step_crash_eq crc ser de c n now hs]
-    exact Inv_restartLog c.cfg c.log _ now hi.oneOutcome hi.scanOK
+  | recoverMem now => exact Inv_recoverMem c now hi
+  | decisions => exact hi
+  | forceResolve id b => exact Inv_forceResolve c id b hi
+  | crash n now cfg =>
+    rw [step_crash_eq crc ser de c n now cfg hs]
+    exact Inv_restartLog cfg c.log _ now hi.oneOutcome hi.scanOK
 
 theorem run_cons (crc : List Nat → Nat) (ser : Entry → List Nat) (de : List Nat → Option Entry)
     (c : Coord) (s : Step) (ss : List Step) :
@@ -563,14 +789,16 @@ theorem Inv_run (crc : List Nat → Nat) (ser : Entry → List Nat) (de : List N
 
 theorem events_pending (crc : List Nat → Nat) (ser : Entry → List Nat) (de : List Nat → Option Entry)
     (c : Coord) (s : Step) (ev : Event) :
-    ev ∈ events s (step crc ser de c s).2 → ev.id ∈ mKeys c.pending := by
+    ev ∈ events c s (step crc ser de c s).2 → ev.id ∈ mKeys c.pending := by
   cases s with
   | lock tx h => simp [step, lockAcquire, events]
   | «begin» id parts now =>
-    simp only [step, begin]; split <;> simp [events]
+    simp only [step, begin]; split
+    · simp [events]
+    · split <;> simp [events]
   | vote id shard v x =>
     intro h
-    have : events (Step.vote id shard v x) (step crc ser de c (Step.vote id shard v x)).2 = [] := by
+    have : events c (Step.vote id shard v x) (step crc ser de c (Step.vote id shard v x)).2 = [] := by
       generalize (step crc ser de c (Step.vote id shard v x)).2 = r
       cases r <;> rfl
     rw [this] at h; simp at h
@@ -581,15 +809,23 @@ theorem events_pending (crc : List Nat → Nat) (ser : Entry → List Nat) (de :
     · rename_i tx hl
       split
       · simp [events]
-      · simp only [events, List.mem_singleton]
-        rintro rfl; exact mLookup_some_mem_keys _ _ _ hl
+      · split
+        · simp [events]
+        · split
+          · simp [events]
+          · simp only [events, List.mem_singleton]
+            rintro rfl; exact mLookup_some_mem_keys _ _ _ hl
   | abort id =>
     simp only [step, abort]
     split
     · simp [events]
     · rename_i tx hl
-      simp only [events, List.mem_singleton]
-      rintro rfl; exact mLookup_some_mem_keys _ _ _ hl
+      split
+      · simp [events]
+      · split
+        · simp [events]
+        · simp only [events, List.mem_singleton]
+          rintro rfl; exact mLookup_some_mem_keys _ _ _ hl
   | completeCommit id =>
     simp only [step, completeCommit]
     split
@@ -608,58 +844,232 @@ theorem events_pending (crc : List Nat → Nat) (ser : Entry → List Nat) (de :
       · simp [events]
       · simp only [events, List.mem_singleton]
         rintro rfl; exact mLookup_some_mem_keys _ _ _ hl
+  | forceResolve id b =>
+    simp only [step, forceResolve]
+    split
+    · cases b <;> simp [events]
+    · rename_i tx hl
+      split
+      · cases b <;> simp [events]
+      · cases b <;>
+        · simp only [events, List.mem_singleton]
+          rintro rfl; exact mLookup_some_mem_keys _ _ _ hl
   | cleanup now =>
     simp only [step, cleanupTimeouts, events, List.mem_map, mKeys, List.mem_filter]
     rintro ⟨i, ⟨p, ⟨hp, _⟩, rfl⟩, rfl⟩
     exact ⟨p, hp, rfl⟩
   | flushAborts => simp [step, flushAborts, events]
   | recover now => simp [step, recoverFromWal, events]
-  | crash n now =>
+  | recoverMem now =>
+    simp only [step, recoverMem, events, List.mem_map, mKeys, List.mem_filter]
+    rintro ⟨p, ⟨hp, _⟩, rfl⟩
+    exact ⟨p, hp, rfl⟩
+  | decisions => simp [step, events]
+  | crash n now cfg =>
     intro h
-    have : events (Step.crash n now) (step crc ser de c (Step.crash n now)).2 = [] := by
-      generalize (step crc ser de c (Step.crash n now)).2 = r
+    have : events c (Step.crash n now cfg) (step crc ser de c (Step.crash n now cfg)).2 = [] := by
+      generalize (step crc ser de c (Step.crash n now cfg)).2 = r
       cases r <;> rfl
     rw [this] at h; simp at h
 
-theorem recordVote_log (c : Coord) (id shard : Nat) (v : Vote) (x : Bool) :
-    ∃ es, (recordVote c id shard v x).1.log = c.log ++ es := by
+/-- a TxComplete record in the log after a call that is not a crash was there before, or is for a
+    transaction that was pending when the call was made -/
+theorem step_complete_new (crc : List Nat → Nat) (ser : Entry → List Nat) (de : List Nat → Option Entry)
+    (c : Coord) (s : Step) (hs : ∀ n now cfg, s ≠ Step.crash n now cfg) (x : Nat) (o : Outcome)
+    (h : Entry.txComplete x o ∈ (step crc ser de c s).1.log) :
+    Entry.txComplete x o ∈ c.log ∨ x ∈ mKeys c.pending := by
+  cases s with
+  | lock tx h' => exact Or.inl (by simpa [step, lockAcquire] using h)
+  | «begin» id parts now =>
+    simp only [step, begin] at h
+    split at h
+    · exact Or.inl h
+    · split at h
+      · exact Or.inl h
+      · rename_i l ha
+        rcases (mem_walApp ha).1 _ h with h | h
+        · exact Or.inl h
+        · cases h
+  | vote id shard v b =>
+    left
+    simp only [step, recordVote] at h
+    split at h
+    · exact h
+    · rename_i l ha
+      have hm := (mem_walApp ha).1
+      have base : Entry.txComplete x o ∈ l → Entry.txComplete x o ∈ c.log := by
+        intro h; rcases hm _ h with h | h
+        · exact h
+        · cases h
+      split at h
+      · exact base h
+      · split at h
+        · exact base h
+        · split at h
+          · exact base h
+          · split at h
+            · split at h
+              · split at h
+                · exact base h
+                · split at h
+                  · exact base h
+                  · rename_i l2 ha2
+                    rcases (mem_walApp ha2).1 _ h with h | h
+                    · exact base h
+                    · cases h
+              · exact base h
+            · exact base h
+  | commit id =>
+    simp only [step, commit] at h
+    split at h
+    · exact Or.inl h
+    · rename_i tx hl
+      split at h
+      · exact Or.inl h
+      · split at h
+        · exact Or.inl h
+        · rename_i l1 ha1
+          have b1 : Entry.txComplete x o ∈ l1 → Entry.txComplete x o ∈ c.log := by
+            intro h; rcases (mem_walApp ha1).1 _ h with h | h
+            · exact h
+            · cases h
+          split at h
+          · exact Or.inl (b1 h)
+          · rename_i l2 ha2
+            simp only at h
+            rcases mem_walTry _ _ _ _ _ h with h | h
+            · rcases mem_walTryAll _ _ _ _ _ h with h | h
+              · rcases (mem_walApp ha2).1 _ h with h | h
+                · exact Or.inl (b1 h)
+                · cases h; exact Or.inr (mLookup_some_mem_keys _ _ _ hl)
+              · simp only [List.mem_map] at h
+                obtain ⟨a, _, h⟩ := h; cases h
+            · cases h
+  | abort id =>
+    simp only [step, abort] at h
+    split at h
+    · exact Or.inl h
+    · rename_i tx hl
+      split at h
+      · exact Or.inl h
+      · rename_i l1 ha1
+        have b1 : Entry.txComplete x o ∈ l1 → Entry.txComplete x o ∈ c.log := by
+          intro h; rcases (mem_walApp ha1).1 _ h with h | h
+          · exact h
+          · cases h
+        split at h
+        · exact Or.inl (b1 h)
+        · rename_i l2 ha2
+          rcases (mem_walApp ha2).1 _ h with h | h
+          · exact Or.inl (b1 h)
+          · cases h; exact Or.inr (mLookup_some_mem_keys _ _ _ hl)
+  | completeCommit id =>
+    left
+    simp only [step, completeCommit] at h
+    split at h
+    · exact h
+    · split at h <;> exact h
+  | completeAbort id =>
+    left
+    simp only [step, completeAbort] at h
+    split at h
+    · exact h
+    · split at h <;> exact h
+  | forceResolve id b =>
+    left
+    simp only [step, forceResolve] at h
+    split at h
+    · exact h
+    · split at h <;> exact h
+  | cleanup now => exact Or.inl (by simpa [step, cleanupTimeouts] using h)
+  | flushAborts =>
+    left
+    simp only [step, flushAborts] at h
+    rcases mem_walTryAll _ _ _ _ _ h with h | h
+    · exact h
+    · simp only [List.mem_map] at h
+      obtain ⟨a, _, h⟩ := h; cases h
+  | recover now => exact Or.inl (by simpa [step, recoverFromWal] using h)
+  | recoverMem now => exact Or.inl (by simpa [step, recoverMem] using h)
+  | decisions => exact Or.inl (by simpa [step] using h)
+  | crash n now cfg => exact absurd rfl (hs n now cfg)
+
+theorem recordVote_log (sz : Entry → Nat) (c : Coord) (hn : c.cfg.NoRotate) (id shard : Nat) (v : Vote) (x : Bool) :
+    ∃ es, (recordVote sz c id shard v x).1.log = c.log ++ es := by
   unfold recordVote
-  simp only [Coord.append]
   split
-  · exact ⟨_, rfl⟩
-  · split
+  · exact ⟨[], by simp⟩
+  · rename_i l ha
+    have hl := walApp_noRotate hn ha
+    subst hl
+    simp only
+    split
     · exact ⟨_, rfl⟩
     · split
       · exact ⟨_, rfl⟩
       · split
+        · exact ⟨_, rfl⟩
         · split
           · split
+            · split
+              · exact ⟨_, rfl⟩
+              · split
+                · exact ⟨_, rfl⟩
+                · rename_i l2 ha2
+                  have hl2 := walApp_noRotate (cfg := c.cfg) hn ha2
+                  subst hl2
+                  exact ⟨[Entry.prepareVote id shard v.kind, Entry.phaseChange id .preparing .prepared], by simp⟩
             · exact ⟨_, rfl⟩
-            · exact ⟨[Entry.prepareVote id shard v.kind, Entry.phaseChange id .preparing .prepared], by simp⟩
           · exact ⟨_, rfl⟩
-        · exact ⟨_, rfl⟩
 
-/-- every call except a crash only appends to the log -/
+/-- as long as the size limit does not rotate the file, every call except a crash only appends
+    to the log -/
 theorem step_log_grows (crc : List Nat → Nat) (ser : Entry → List Nat) (de : List Nat → Option Entry)
-    (c : Coord) (s : Step) (hs : ∀ n now, s ≠ Step.crash n now) :
+    (c : Coord) (hn : c.cfg.NoRotate) (s : Step) (hs : ∀ n now cfg, s ≠ Step.crash n now cfg) :
     ∃ es, (step crc ser de c s).1.log = c.log ++ es := by
   cases s with
   | lock tx h => exact ⟨[], by simp [step, lockAcquire]⟩
   | «begin» id parts now =>
     simp only [step, begin]; split
     · exact ⟨[], by simp⟩
-    · exact ⟨_, rfl⟩
-  | vote id shard v x => exact recordVote_log c id shard v x
+    · split
+      · exact ⟨[], by simp⟩
+      · rename_i l ha
+        exact ⟨_, walApp_noRotate hn ha⟩
+  | vote id shard v x => exact recordVote_log _ c hn id shard v x
   | commit id =>
     simp only [step, commit]; split
     · exact ⟨[], by simp⟩
     · split
       · exact ⟨[], by simp⟩
-      · exact ⟨_, rfl⟩
+      · split
+        · exact ⟨[], by simp⟩
+        · rename_i l1 ha1
+          have h1 := walApp_noRotate hn ha1
+          split
+          · exact ⟨_, h1⟩
+          · rename_i l2 ha2
+            have h2 := walApp_noRotate hn ha2
+            simp only
+            obtain ⟨es', _, h3⟩ := walTryAll_noRotate (recSize ser) hn l2
+              ((voteHandles _).map (fun h => Entry.lockRelease id h))
+            rw [h3]
+            rcases walTry_noRotate (recSize ser) hn (l2 ++ es') (Entry.allLocksReleased id) with h4 | h4 <;>
+              rw [h4, h2, h1]
+            · exact ⟨_, by simp only [List.append_assoc]; rfl⟩
+            · exact ⟨_, by simp only [List.append_assoc]; rfl⟩
   | abort id =>
     simp only [step, abort]; split
     · exact ⟨[], by simp⟩
-    · exact ⟨_, rfl⟩
+    · split
+      · exact ⟨[], by simp⟩
+      · rename_i l1 ha1
+        have h1 := walApp_noRotate hn ha1
+        split
+        · exact ⟨_, h1⟩
+        · rename_i l2 ha2
+          have h2 := walApp_noRotate hn ha2
+          exact ⟨_, by simp only; rw [h2, h1, List.append_assoc]⟩
   | completeCommit id =>
     simp only [step, completeCommit]; split
     · exact ⟨[], by simp⟩
@@ -668,10 +1078,80 @@ theorem step_log_grows (crc : List Nat → Nat) (ser : Entry → List Nat) (de :
     simp only [step, completeAbort]; split
     · exact ⟨[], by simp⟩
     · split <;> exact ⟨[], by simp⟩
+  | forceResolve id b =>
+    simp only [step, forceResolve]; split
+    · exact ⟨[], by simp⟩
+    · split <;> exact ⟨[], by simp⟩
   | cleanup now => exact ⟨[], by simp [step, cleanupTimeouts]⟩
-  | flushAborts => exact ⟨_, rfl⟩
+  | flushAborts =>
+    obtain ⟨es', _, h⟩ := walTryAll_noRotate (recSize ser) hn c.log
+      (c.pendingAborts.map (fun p => Entry.abortIntent p.1 p.2.1 p.2.2))
+    exact ⟨es', by simp only [step, flushAborts]; exact h⟩
   | recover now => exact ⟨[], by simp [step, recoverFromWal]⟩
-  | crash n now => exact absurd rfl (hs n now)
+  | recoverMem now => exact ⟨[], by simp [step, recoverMem]⟩
+  | decisions => exact ⟨[], by simp [step]⟩
+  | crash n now cfg => exact absurd rfl (hs n now cfg)
+
+/-- every call except a crash leaves the configuration alone -/
+theorem step_cfg (crc : List Nat → Nat) (ser : Entry → List Nat) (de : List Nat → Option Entry)
+    (c : Coord) (s : Step) (hs : ∀ n now cfg, s ≠ Step.crash n now cfg) :
+    (step crc ser de c s).1.cfg = c.cfg := by
+  cases s with
+  | lock tx h => rfl
+  | «begin» id parts now =>
+    simp only [step, begin]; split
+    · rfl
+    · split <;> rfl
+  | vote id shard v x =>
+    simp only [step, recordVote]
+    split
+    · rfl
+    · skip
+      split
+      · rfl
+      · split
+        · rfl
+        · split
+          · rfl
+          · split
+            · split
+              · split
+                · rfl
+                · split <;> rfl
+              · rfl
+            · rfl
+  | commit id =>
+    simp only [step, commit]; split
+    · rfl
+    · split
+      · rfl
+      · split
+        · rfl
+        · split <;> rfl
+  | abort id =>
+    simp only [step, abort]; split
+    · rfl
+    · split
+      · rfl
+      · split <;> rfl
+  | completeCommit id =>
+    simp only [step, completeCommit]; split
+    · rfl
+    · split <;> rfl
+  | completeAbort id =>
+    simp only [step, completeAbort]; split
+    · rfl
+    · split <;> rfl
+  | forceResolve id b =>
+    simp only [step, forceResolve]; split
+    · rfl
+    · split <;> rfl
+  | cleanup now => rfl
+  | flushAborts => rfl
+  | recover now => rfl
+  | recoverMem now => rfl
+  | decisions => rfl
+  | crash n now cfg => exact absurd rfl (hs n now cfg)
 
 theorem mem_release (h : Nat) (l : List (Nat × Nat)) (p : Nat × Nat) :
     p ∈ release h l ↔ p ∈ l ∧ p.1 ≠ h := by
